@@ -162,7 +162,31 @@ impl Engine for SockEngine {
     fn name(&self) -> &'static str {
         "socksrv"
     }
+    fn real_time(&self) -> bool {
+        true
+    }
     fn run_case(&self, c: &SockCase) -> CaseReport {
+        // real sockets, real clock: one probe that gets no answer within 2 s may be the machine; the
+        // case is repeated, and a probe left unanswered three times in a row is the server's doing
+        let (rep, timed_out) = self.run_once(c);
+        if !timed_out {
+            return rep;
+        }
+        let (rep2, t2) = self.run_once(c);
+        if !t2 {
+            return rep2;
+        }
+        let (mut rep3, t3) = self.run_once(c);
+        if t3 {
+            rep3.violate("C09/probe-unanswered-repeatedly", format!("{c:?}: in three runs in a row a fresh well-behaved client got no answer within 2 s after the faults"));
+        }
+        rep3
+    }
+}
+
+impl SockEngine {
+    fn run_once(&self, c: &SockCase) -> (CaseReport, bool) {
+        let mut timed_out = false;
         let mut rep = CaseReport::default();
         let _ = crate::panichook::take_all();
         let rt = tokio::runtime::Builder::new_current_thread().enable_all().build().unwrap();
@@ -240,6 +264,7 @@ impl Engine for SockEngine {
                                 rep.violate("C09/probe-not-served", format!("{desc}: fresh client got {other:?}"));
                             } else {
                                 rep.class("probe-timeout-inconclusive");
+                                timed_out = true;
                             }
                         }
                     }
@@ -252,7 +277,7 @@ impl Engine for SockEngine {
             }
         }
         rep.total_ops = c.faults.len() as u64;
-        rep
+        (rep, timed_out)
     }
 }
 
